@@ -7,7 +7,7 @@ import copy
 
 from ECAgent.Core import System
 
-from .common import model_class, SID, Model, Rec, RefSched, SystemNotFoundError, gen_flavour, gen_prio, gen_window, rec_class, spec_defaults
+from .common import ambient_warnings, model_class, SID, Model, Rec, RefSched, SystemNotFoundError, gen_flavour, gen_prio, gen_window, rec_class, spec_defaults
 
 PROPERTY = "C05"
 QUICK_RUNS = 24000
@@ -433,6 +433,7 @@ class World:
 
 
 def execute(sc, ctx):
+    ambient_warnings(sc, ctx)
     w = World(sc, ctx)
     for spec in sc["systems"]:
         spec = spec_defaults(spec)
